@@ -5,6 +5,8 @@ package main
 import (
 	"math/rand"
 
+	"github.com/RoaringBitmap/roaring/v2"
+
 	segment "github.com/blevesearch/scorch_segment_api/v2"
 
 	"verif/harness/model"
@@ -17,4 +19,7 @@ const VecBuild = false
 func checkVectors(c *Ctx, tag string, seg segment.Segment, m *model.Seg, rng *rand.Rand) {}
 
 func checkVectorsLight(r *oracle.Report, tag string, seg segment.Segment, m *model.Seg, rng *rand.Rand) {
+}
+
+func c18engineCancel(c *Ctx, id string, p *c18plan, ins []segment.Segment, bm []*roaring.Bitmap, path string, rng *rand.Rand, counts map[string]int64) {
 }
